@@ -1,12 +1,764 @@
-//! C01 — not built yet.
-use crate::runner::{Outcome, Summary};
-use crate::Ctx;
-use serde_json::Value;
+//! C01 — parsing never panics or aborts on any input text.
+//!
+//! modes
+//!   C01        replay of TLC cases {toks, muts, kind, exp{program,instruction,expression,memref,frame}, sure} from
+//!              spec/mc/MC_QuilGrammar.tla: the token sequence is rendered to text in two layouts and fed to the five
+//!              entry points.  VIOLATION iff an entry point panics (or the worker dies / times out: reported by the pool
+//!              as `crash`).  ok/err disagreement with the model is MODEL-DIVERGENCE (only judged when `sure`).
+//!   C01.text   replay of raw texts {text} (the driver's fixture mutations, run again in crash-isolated workers) and of
+//!              nesting probes {nest:{kind,depth}}.  A probe deeper than NEST_THRESHOLD runs in a child process of its
+//!              own; if that child dies the violation is tagged with the known finding.
+//!   C01.inner  (internal) child side of a nesting probe
+//! drive       the repository's own Quil texts (tests/programs/*.quil, benches/sample-calibrations.quil,
+//!              benches/test_expressions.txt, hand-written kitchen-sink lines) and seeded byte / char / token mutations
+//!              of them: parsed in-process (panic = violation), tokenized by `tokenize` (a transcription of the lexer's
+//!              token classes) and logged for spec/trace/QuilGrammarTrace.tla, which runs the model parser on the real
+//!              token streams (model totality; ok/err agreement under Strict).
 
-pub fn replay(_ctx: &Ctx, _case: &Value) -> Outcome {
-    panic!("C01: replay not implemented")
+use crate::runner::{Outcome, Summary, Violation};
+use crate::util::{self, s};
+use crate::Ctx;
+use quil_rs::expression::Expression;
+use quil_rs::instruction::{FrameIdentifier, Instruction, MemoryReference};
+use quil_rs::Program;
+use rand::seq::SliceRandom;
+use rand::Rng;
+use serde_json::{json, Value};
+use std::io::{BufRead, BufReader, Write};
+use std::str::FromStr;
+
+pub const ENTRIES: [&str; 5] = ["program", "instruction", "expression", "memref", "frame"];
+/// a crash is attributed to the known nesting-depth finding only for inputs nested deeper than this
+pub const NEST_THRESHOLD: usize = 1000;
+pub const NEST_FINDING: &str = "parser-nesting-depth-stack-overflow";
+
+/// "ok" | "err" | "panic: <message>" for one entry point
+fn run_entry(entry: &str, text: &str) -> String {
+    let r = std::panic::catch_unwind(|| match entry {
+        "program" => Program::from_str(text).is_ok(),
+        "instruction" => Instruction::from_str(text).is_ok(),
+        "expression" => Expression::from_str(text).is_ok(),
+        "memref" => MemoryReference::from_str(text).is_ok(),
+        "frame" => FrameIdentifier::from_str(text).is_ok(),
+        _ => unreachable!(),
+    });
+    match r {
+        Ok(true) => "ok".into(),
+        Ok(false) => "err".into(),
+        Err(e) => {
+            let msg = e.downcast_ref::<&str>().map(|x| x.to_string()).or_else(|| e.downcast_ref::<String>().cloned()).unwrap_or_default();
+            format!("panic: {msg}")
+        }
+    }
 }
 
-pub fn drive(_ctx: &Ctx) -> Summary {
-    panic!("C01: drive not implemented")
+pub fn run_all(text: &str) -> Vec<(&'static str, String)> {
+    ENTRIES.iter().map(|e| (*e, run_entry(e, text))).collect()
+}
+
+fn record_panics(o: &mut Outcome, text: &str, res: &[(&'static str, String)]) {
+    for (e, r) in res {
+        if r.starts_with("panic") {
+            o.violate(Violation::new("panic", json!("ok or err"), json!(r)).note(format!("{e}::from_str({text:?})")));
+        }
+    }
+}
+
+/// maximal nesting depth of parentheses / brackets in a text
+pub fn nesting_depth(text: &str) -> usize {
+    let (mut d, mut m) = (0usize, 0usize);
+    for c in text.chars() {
+        match c {
+            '(' | '[' => {
+                d += 1;
+                m = m.max(d);
+            }
+            ')' | ']' => d = d.saturating_sub(1),
+            _ => {}
+        }
+    }
+    // prefix minus chains nest the Pratt parser too
+    let mut run = 0usize;
+    for c in text.chars() {
+        if c == '-' {
+            run += 1;
+            m = m.max(run);
+        } else if c != ' ' {
+            run = 0;
+        }
+    }
+    m
+}
+
+// ------------------------------------------------------------------------------------------ rendering
+
+fn quote(v: &str) -> String {
+    format!("\"{}\"", v.replace('\\', "\\\\").replace('"', "\\\""))
+}
+
+fn lexeme(t: &Value) -> String {
+    let v = t["v"].as_str().unwrap_or("");
+    match t["c"].as_str().unwrap_or("") {
+        "str" => quote(v),
+        "target" => format!("@{v}"),
+        "var" => format!("%{v}"),
+        "nl" => "\n".into(),
+        "indent" => "    ".into(),
+        "comment" => format!("#{v}"),
+        _ => v.to_string(),
+    }
+}
+
+fn is_punct(c: &str) -> bool {
+    matches!(c, "lp" | "rp" | "lb" | "rb" | "comma" | "colon" | "bang" | "semi" | "nl" | "indent")
+}
+
+/// layout 0: single spaces, indentation as a tab; layout 1: no space next to punctuation, indentation as four spaces
+pub fn render(toks: &[Value], layout: usize) -> String {
+    let mut out = String::new();
+    for (k, t) in toks.iter().enumerate() {
+        let c = t["c"].as_str().unwrap_or("");
+        if k > 0 {
+            let pc = toks[k - 1]["c"].as_str().unwrap_or("");
+            let glue = if layout == 0 { c == "nl" || pc == "nl" } else { is_punct(c) || is_punct(pc) };
+            // (a run of newline characters is ONE NewLine token: two NewLine tokens need a blank between them)
+            if !glue || (c == "nl" && pc == "nl") {
+                out.push(' ');
+            }
+        }
+        if c == "indent" && layout == 0 {
+            out.push('\t');
+        } else {
+            out.push_str(&lexeme(t));
+        }
+    }
+    out
+}
+
+// ------------------------------------------------------------------------------------------ tokenizer
+
+const COMMANDS: &[&str] = &[
+    "ADD", "AND", "ASHR", "CALL", "CAPTURE", "CONVERT", "DECLARE", "DEFCAL", "DEFCIRCUIT", "DEFFRAME", "DEFGATE",
+    "DEFWAVEFORM", "DELAY", "DIV", "EQ", "EXCHANGE", "FENCE", "GE", "GT", "HALT", "INCLUDE", "IOR", "JUMP", "JUMP-UNLESS",
+    "JUMP-WHEN", "LABEL", "LE", "LOAD", "LT", "MEASURE", "MOVE", "MUL", "NEG", "NOP", "NOT", "PRAGMA", "PULSE",
+    "RAW-CAPTURE", "RESET", "SET-FREQUENCY", "SET-PHASE", "SET-SCALE", "SHIFT-FREQUENCY", "SHIFT-PHASE", "SHL", "SHR",
+    "STORE", "SUB", "SWAP-PHASES", "WAIT", "XOR",
+];
+const KEYWORDS: &[&str] = &["AS", "MATRIX", "mut", "OFFSET", "PAULI-SUM", "PERMUTATION", "SEQUENCE", "SHARING"];
+const MODIFIERS: &[&str] = &["CONTROLLED", "DAGGER", "FORKED"];
+const DATATYPES: &[&str] = &["BIT", "OCTET", "REAL", "INTEGER"];
+const FUNCTIONS: &[&str] = &["cis", "cos", "exp", "sin", "sqrt"];
+
+#[derive(Clone, Debug)]
+pub struct Tok {
+    pub c: &'static str,
+    pub v: String,
+    pub k: &'static str,
+    pub start: usize,
+    pub end: usize,
+}
+
+fn tok(c: &'static str, v: &str, k: &'static str, start: usize, end: usize) -> Tok {
+    Tok { c, v: v.to_string(), k, start, end }
+}
+
+fn ident_len(b: &[u8]) -> usize {
+    // [A-Za-z_][A-Za-z0-9_]* ( -+ [A-Za-z0-9_]+ )*
+    let lead = |c: u8| c.is_ascii_alphabetic() || c == b'_';
+    let tail = |c: u8| lead(c) || c.is_ascii_digit();
+    if b.is_empty() || !lead(b[0]) {
+        return 0;
+    }
+    let mut i = 1;
+    while i < b.len() && tail(b[i]) {
+        i += 1;
+    }
+    loop {
+        let mut j = i;
+        while j < b.len() && b[j] == b'-' {
+            j += 1;
+        }
+        if j == i {
+            break;
+        }
+        let mut k = j;
+        while k < b.len() && tail(b[k]) {
+            k += 1;
+        }
+        if k == j {
+            break;
+        }
+        i = k;
+    }
+    i
+}
+
+/// number token at the start of `b`: (length, is_float, int class) — the automaton of spec/NumLiteral.tla
+fn number_len(b: &[u8]) -> Option<(usize, bool, &'static str)> {
+    let n = b.len();
+    let digit = |c: u8, r: u32| (c as char).to_digit(r).is_some();
+    if n >= 2 && b[0] == b'0' && matches!(b[1].to_ascii_lowercase(), b'x' | b'o' | b'b') {
+        let r = match b[1].to_ascii_lowercase() {
+            b'x' => 16,
+            b'o' => 8,
+            _ => 2,
+        };
+        let mut i = 2;
+        let mut v: u128 = 0;
+        while i < n && (b[i] == b'_' || digit(b[i], r)) {
+            if b[i] != b'_' {
+                v = v.checked_mul(r as u128)?.checked_add((b[i] as char).to_digit(r).unwrap() as u128)?;
+                if v > u64::MAX as u128 {
+                    return None;
+                }
+            }
+            i += 1;
+        }
+        if i == 2 {
+            return None;
+        }
+        return Some((i, false, int_class(v)));
+    }
+    let mut i = 0;
+    let mut v: u128 = 0;
+    let mut nd = 0;
+    while i < n && (b[i].is_ascii_digit() || (b[i] == b'_' && i > 0)) {
+        if b[i] != b'_' {
+            v = v.saturating_mul(10).saturating_add((b[i] - b'0') as u128);
+            nd += 1;
+        }
+        i += 1;
+    }
+    if i < n && (b[i] == b'.' || ((b[i] == b'e' || b[i] == b'E') && nd > 0)) {
+        // a float: the integer part is first read as a u64
+        if v > u64::MAX as u128 {
+            return None;
+        }
+        let mut j = i;
+        let mut text = String::new();
+        for c in &b[..i] {
+            if *c != b'_' {
+                text.push(*c as char);
+            }
+        }
+        if b[j] == b'.' {
+            j += 1;
+            text.push('.');
+            if j < n && b[j] == b'_' {
+                // `._` : the token ends after the point
+                if nd == 0 {
+                    return None;
+                }
+                return finish_float(&text, j);
+            }
+            while j < n && (b[j].is_ascii_digit() || b[j] == b'_') {
+                if b[j] != b'_' {
+                    text.push(b[j] as char);
+                    nd += 1;
+                }
+                j += 1;
+            }
+        }
+        if nd == 0 {
+            return None;
+        }
+        if j < n && (b[j] == b'e' || b[j] == b'E') {
+            let mut k = j + 1;
+            let mut e = String::from("e");
+            if k < n && (b[k] == b'+' || b[k] == b'-') {
+                e.push(b[k] as char);
+                k += 1;
+            }
+            let mut ed = 0;
+            while k < n && (b[k].is_ascii_digit() || b[k] == b'_') {
+                if b[k] != b'_' {
+                    e.push(b[k] as char);
+                    ed += 1;
+                }
+                k += 1;
+            }
+            if ed == 0 {
+                return None; // `1e` is refused
+            }
+            text.push_str(&e);
+            j = k;
+        }
+        return finish_float(&text, j);
+    }
+    if nd == 0 {
+        return None;
+    }
+    if v > u64::MAX as u128 {
+        return None;
+    }
+    Some((i, false, int_class(v)))
+}
+
+fn finish_float(text: &str, len: usize) -> Option<(usize, bool, &'static str)> {
+    let t = if text.starts_with('.') { format!("0{text}") } else { text.to_string() };
+    let t = t.replace(".e", ".0e");
+    let t = if t.ends_with('.') { format!("{t}0") } else { t };
+    match t.parse::<f64>() {
+        Ok(v) if v.is_finite() => Some((len, true, "")),
+        _ => None,
+    }
+}
+
+fn int_class(v: u128) -> &'static str {
+    if v < (1u128 << 63) {
+        "s"
+    } else if v == (1u128 << 63) {
+        "m"
+    } else {
+        "b"
+    }
+}
+
+/// Token classes of a text, as the lexer of quil-rs produces them; None when the text does not lex.
+pub fn tokenize(text: &str) -> Option<Vec<Tok>> {
+    let b = text.as_bytes();
+    let n = b.len();
+    let mut out = vec![];
+    let mut i = 0;
+    while i < n {
+        if b[i..].starts_with(b"    ") {
+            out.push(tok("indent", "", "", i, i + 4));
+            i += 4;
+            continue;
+        }
+        if b[i] == b'\t' {
+            out.push(tok("indent", "", "", i, i + 1));
+            i += 1;
+            continue;
+        }
+        let mut j = i;
+        while j < n && b[j] == b' ' {
+            j += 1;
+        }
+        if j >= n {
+            break; // trailing blanks
+        }
+        let c = b[j];
+        let start = j;
+        let simple = |cl: &'static str| Some((cl, 1usize));
+        let punct = match c {
+            b'!' => simple("bang"),
+            b':' => simple("colon"),
+            b',' => simple("comma"),
+            b'[' => simple("lb"),
+            b']' => simple("rb"),
+            b'(' => simple("lp"),
+            b')' => simple("rp"),
+            b';' => simple("semi"),
+            _ => None,
+        };
+        if c == b'#' {
+            let mut k = j;
+            while k < n && b[k] != b'\n' {
+                k += 1;
+            }
+            out.push(tok("comment", "", "", start, k));
+            i = k;
+        } else if let Some((cl, len)) = punct {
+            out.push(tok(cl, &text[j..j + len], "", start, j + len));
+            i = j + len;
+        } else if b[j..].starts_with(b"    ") || c == b'\t' {
+            let len = if c == b'\t' { 1 } else { 4 };
+            out.push(tok("indent", "", "", start, j + len));
+            i = j + len;
+        } else if c == b'\n' || c == b'\r' {
+            let mut k = j;
+            if c == b'\n' {
+                while k < n && b[k] == b'\n' {
+                    k += 1;
+                }
+            } else {
+                while k < n && (b[k] == b'\n' || b[k] == b'\r') {
+                    k += 1;
+                }
+            }
+            out.push(tok("nl", "", "", start, k));
+            i = k;
+        } else if c == b'@' || c == b'%' {
+            let len = ident_len(&b[j + 1..]);
+            if len == 0 {
+                return None;
+            }
+            out.push(tok(if c == b'@' { "target" } else { "var" }, "x", "", start, j + 1 + len));
+            i = j + 1 + len;
+        } else if c == b'"' {
+            let mut esc = false;
+            let mut end = None;
+            for (k, ch) in text[j + 1..].char_indices() {
+                if ch == '\\' {
+                    esc = !esc;
+                } else if esc {
+                    esc = false;
+                } else if ch == '"' {
+                    end = Some(j + 1 + k + 1);
+                    break;
+                }
+            }
+            let end = end?;
+            out.push(tok("str", "s", "", start, end));
+            i = end;
+        } else if matches!(c, b'^' | b'-' | b'+' | b'/' | b'*') {
+            out.push(tok("op", &text[j..j + 1], "", start, j + 1));
+            i = j + 1;
+        } else if ident_len(&b[j..]) > 0 {
+            let len = ident_len(&b[j..]);
+            let word = &text[j..j + len];
+            let t = if word == "NONBLOCKING" {
+                tok("nonblocking", word, "", start, j + len)
+            } else if KEYWORDS.contains(&word) {
+                tok("kw", word, "", start, j + len)
+            } else if COMMANDS.contains(&word) {
+                tok("cmd", word, "", start, j + len)
+            } else if DATATYPES.contains(&word) {
+                tok("dtype", word, "", start, j + len)
+            } else if MODIFIERS.contains(&word) {
+                tok("mod", word, "", start, j + len)
+            } else {
+                let k = if word == "i" {
+                    "i"
+                } else if FUNCTIONS.contains(&word.to_lowercase().as_str()) {
+                    "fn"
+                } else {
+                    ""
+                };
+                tok("id", "x", k, start, j + len)
+            };
+            out.push(t);
+            i = j + len;
+        } else if c.is_ascii_digit() || c == b'.' {
+            let (len, is_float, k) = number_len(&b[j..])?;
+            out.push(tok(if is_float { "float" } else { "int" }, "1", if is_float { "" } else { k }, start, j + len));
+            i = j + len;
+        } else {
+            return None;
+        }
+    }
+    // whatever is left must be blanks, tabs or newlines (consumed by the trailing many0(one_of("\n\t ")))
+    Some(out)
+}
+
+fn toks_json(toks: &[Tok]) -> Value {
+    Value::Array(toks.iter().map(|t| json!({"c": t.c, "v": t.v, "k": t.k})).collect())
+}
+
+// ------------------------------------------------------------------------------------------ replay
+
+fn nest_text(kind: &str, depth: usize) -> String {
+    match kind {
+        "paren" => format!("RX({}1{}) 0", "(".repeat(depth), ")".repeat(depth)),
+        "sin" => format!("RX({}1{}) 0", "sin(".repeat(depth), ")".repeat(depth)),
+        "expr" => format!("{}%x{}", "(".repeat(depth), ")".repeat(depth)),
+        other => panic!("unknown nesting probe {other}"),
+    }
+}
+
+/// run one text in a child process of this worker; None if the child died
+fn run_isolated(ctx: &Ctx, text: &str) -> Option<Vec<(String, String)>> {
+    let exe = std::env::current_exe().ok()?;
+    let mut child = std::process::Command::new(exe)
+        .args(["worker", "C01.inner", "--seed", &ctx.seed.to_string()])
+        .stdin(std::process::Stdio::piped())
+        .stdout(std::process::Stdio::piped())
+        .stderr(std::process::Stdio::null())
+        .spawn()
+        .ok()?;
+    {
+        let stdin = child.stdin.as_mut()?;
+        let _ = writeln!(stdin, "{}", json!({"text": text}));
+        let _ = stdin.flush();
+    }
+    let mut line = String::new();
+    let got = {
+        let mut rd = BufReader::new(child.stdout.take()?);
+        rd.read_line(&mut line).ok()
+    };
+    drop(child.stdin.take());
+    let _ = child.wait();
+    if got.unwrap_or(0) == 0 {
+        return None;
+    }
+    let o: Outcome = serde_json::from_str(&line).ok()?;
+    // the inner worker reports its results as divergences "entry=result" (transport only)
+    Some(o.divergences.iter().filter_map(|d| d.split_once('=').map(|(a, b)| (a.to_string(), b.to_string()))).collect())
+}
+
+fn replay_text(ctx: &Ctx, text: &str, probe: bool) -> Outcome {
+    let depth = nesting_depth(text);
+    let mut o = Outcome::ok(true);
+    o.sub_evaluations = ENTRIES.len() as u64;
+    if ctx.mode == "C01.inner" {
+        for (e, r) in run_all(text) {
+            o.diverge(format!("{e}={r}"));
+        }
+        return o;
+    }
+    if probe || depth > NEST_THRESHOLD {
+        o.count("isolated");
+        match run_isolated(ctx, text) {
+            Some(res) => {
+                for (e, r) in res {
+                    if r.starts_with("panic") {
+                        o.violate(Violation::new("panic", json!("ok or err"), json!(r)).note(format!("{e}::from_str, nesting depth {depth}")));
+                    }
+                }
+            }
+            None => {
+                let mut v = Violation::new("crash", json!("no crash"), json!("child process died"))
+                    .note(format!("nesting depth {depth}; text starts {:?}", text.chars().take(40).collect::<String>()));
+                if depth > NEST_THRESHOLD {
+                    v = v.finding(NEST_FINDING);
+                }
+                o.violate(v);
+            }
+        }
+        return o;
+    }
+    let res = run_all(text);
+    record_panics(&mut o, text, &res);
+    o
+}
+
+pub fn replay(ctx: &Ctx, case: &Value) -> Outcome {
+    if let Some(h) = case.get("history") {
+        // a rejected recorded history: its input event carries the text
+        let text = h.as_array().and_then(|a| a.iter().find(|e| e["ev"] == "input")).map(|e| s(e, "text")).unwrap_or_default();
+        return replay_text(ctx, &text, false);
+    }
+    if let Some(nest) = case.get("nest") {
+        let text = nest_text(&s(nest, "kind"), util::u(nest, "depth") as usize);
+        return replay_text(ctx, &text, true);
+    }
+    if let Some(text) = case.get("text").and_then(|t| t.as_str()) {
+        return replay_text(ctx, text, false);
+    }
+    let toks = util::arr(case, "toks");
+    let muts = case["muts"].as_u64().unwrap_or(0);
+    let heads = ["cmd", "nonblocking", "mod", "id"];
+    let nontrivial = muts > 0 || (toks.len() >= 2 && heads.contains(&toks[0]["c"].as_str().unwrap_or("")));
+    let mut o = Outcome::ok(nontrivial);
+    let sure = case["sure"].as_bool().unwrap_or(false);
+    for layout in 0..2 {
+        let text = render(toks, layout);
+        let res = run_all(&text);
+        o.sub_evaluations += res.len() as u64;
+        record_panics(&mut o, &text, &res);
+        if sure {
+            for (e, r) in &res {
+                if !r.starts_with("panic") && case["exp"][*e].as_str() != Some(r.as_str()) {
+                    o.diverge(format!("{e}::from_str({text:?}) = {r}, model {}", case["exp"][*e]));
+                }
+            }
+        } else {
+            o.count("no_model_opinion");
+        }
+    }
+    o
+}
+
+// ------------------------------------------------------------------------------------------- drive
+
+const KITCHEN: &[&str] = &[
+    "DECLARE ro BIT[1]\nDEFGATE HADAMARD AS MATRIX:\n\t(1/sqrt(2)),(1/sqrt(2))\n\t(1/sqrt(2)),((-1)/sqrt(2))\n\nH 0\nMEASURE 0 ro[0]\n",
+    "DEFGATE PHASE(%a) p q AS PAULI-SUM:\n    ZZ(-%a/4) p q\n    X(%a) p\n",
+    "DEFGATE BELL a b AS SEQUENCE:\n    H a\n    CNOT a b\n",
+    "DEFGATE CCNOT AS PERMUTATION:\n    0, 1, 2, 3, 4, 5, 7, 6\n",
+    "DEFCIRCUIT BELL(%t) a b:\n    RX(%t) a\n    CNOT a b\nBELL(pi/2) 0 1\n",
+    "DEFFRAME 0 \"rf\":\n    SAMPLE-RATE: 1e9\n    DIRECTION: \"tx\"\nDEFWAVEFORM wf/custom(%a):\n    1+2i, %a*0.5, 0x10\n",
+    "PULSE 0 \"rf\" gaussian(duration: 1e-6, fwhm: 2e-7, t0: 5e-7)\nNONBLOCKING CAPTURE 0 \"ro_rx\" flat(duration: 1, iq: 1+0i) ro[0]\nRAW-CAPTURE 0 \"ro_rx\" 1e-6 raw\n",
+    "DELAY 0 1.0; FENCE 0 1; FENCE\nSET-PHASE 0 \"rf\" pi/2\nSHIFT-FREQUENCY 0 1 \"cz\" -1e6\nSWAP-PHASES 0 \"a\" 1 \"b\"\n",
+    "LABEL @start\nJUMP-WHEN @end ro[0]\nJUMP-UNLESS @start ro\nJUMP @start\nLABEL @end\nHALT # done\n",
+    "MOVE a 1\nADD a -2.5\nEQ c a b\nAND b 0xff\nNOT b\nEXCHANGE a b\nCONVERT r i[0]\nLOAD a mem idx\nSTORE mem idx 3\n",
+    "PRAGMA EXTERN foo \"INTEGER (x : REAL, y : mut INTEGER[3])\"\nCALL foo 1 y[0] 2.5i\nPRAGMA INITIAL_REWIRING \"NAIVE\"\nINCLUDE \"lib.quil\"\n",
+    "DAGGER CONTROLLED FORKED RX(-(pi/2)^2, %theta*cis(1.5e-3)) 0 q %r\nRESET\nRESET 3\nMEASURE !readout 1\nNOP\nWAIT\n",
+    "DEFCAL MEASURE 0 dest:\n    DECLARE iq REAL[2]\n    CAPTURE 0 \"out\" flat(duration: 1.0, iq: 1.0) iq\nDEFCAL RX(%t) q:\n    PULSE q \"xy\" drag(alpha: %t) # comment\n",
+];
+const NASTY: &[&str] = &[
+    "\"", "\\", "(", ")", "[", "]", ":", ",", ";", "#", "@", "%", "!", "-", "+", "*", "/", "^", "_", ".", "e", "i", "0", "9", "\n", "\r\n", "\t",
+    "    ", " ", "\u{0}", "é", "λ", "💥", "\u{feff}", "0x", "1e", "NONBLOCKING", "AS", "mut", "18446744073709551616", "9223372036854775808",
+    "-9223372036854775808", "1e400", "pi", "sin(", "DEFCAL", "MEASURE", "PULSE", "OFFSET", "SHARING",
+];
+
+fn load_corpus() -> Vec<(String, String)> {
+    // (kind, text): kind "program" | "expression"
+    let mut out: Vec<(String, String)> = vec![];
+    let root = "/repo/quil-rs";
+    if let Ok(rd) = std::fs::read_dir(format!("{root}/tests/programs")) {
+        let mut files: Vec<_> = rd.filter_map(|e| e.ok()).map(|e| e.path()).filter(|p| p.extension().map(|x| x == "quil").unwrap_or(false)).collect();
+        files.sort();
+        for f in files {
+            if let Ok(t) = std::fs::read_to_string(&f) {
+                out.push(("program".into(), t));
+            }
+        }
+    }
+    if let Ok(t) = std::fs::read_to_string(format!("{root}/benches/sample-calibrations.quil")) {
+        // the whole file once, and windows of it cut at definition boundaries
+        let lines: Vec<&str> = t.lines().collect();
+        let starts: Vec<usize> = (0..lines.len()).filter(|k| lines[*k].starts_with("DEF")).collect();
+        for w in starts.chunks(10).take(100) {
+            let a = w[0];
+            let b = (a + 40).min(lines.len());
+            let mut end = b;
+            for k in a + 1..b {
+                if lines[k].starts_with("DEF") {
+                    end = k;
+                }
+            }
+            out.push(("program".into(), lines[a..end.max(a + 1)].join("\n") + "\n"));
+        }
+        out.push(("whole".into(), t));
+    }
+    if let Ok(t) = std::fs::read_to_string(format!("{root}/benches/test_expressions.txt")) {
+        for line in t.lines() {
+            if let Some((_, e)) = line.split_once('\t') {
+                out.push(("expression".into(), e.to_string()));
+            }
+        }
+    }
+    for k in KITCHEN {
+        out.push(("program".into(), k.to_string()));
+    }
+    out
+}
+
+fn mutate(r: &mut impl Rng, text: &str, pool: &[String]) -> String {
+    let mut t = text.to_string();
+    let n = r.gen_range(1..=3);
+    for _ in 0..n {
+        if t.is_empty() {
+            t.push_str(NASTY.choose(r).unwrap());
+            continue;
+        }
+        match r.gen_range(0..9) {
+            0 => {
+                // byte flip / overwrite
+                let mut b = t.clone().into_bytes();
+                let k = r.gen_range(0..b.len());
+                b[k] = if r.gen_bool(0.5) { b[k] ^ (1 << r.gen_range(0..8)) } else { r.gen() };
+                t = String::from_utf8_lossy(&b).into_owned();
+            }
+            1 => {
+                // delete a byte range
+                let mut b = t.clone().into_bytes();
+                let k = r.gen_range(0..b.len());
+                let l = r.gen_range(1..=4usize.min(b.len() - k));
+                b.drain(k..k + l);
+                t = String::from_utf8_lossy(&b).into_owned();
+            }
+            2 | 3 => {
+                // insert a nasty piece at a char boundary
+                let idx: Vec<usize> = t.char_indices().map(|(k, _)| k).chain([t.len()]).collect();
+                let k = *idx.choose(r).unwrap();
+                t.insert_str(k, NASTY.choose(r).unwrap());
+            }
+            4 => {
+                // replace one char
+                let idx: Vec<(usize, char)> = t.char_indices().collect();
+                let (k, c) = *idx.choose(r).unwrap();
+                t.replace_range(k..k + c.len_utf8(), NASTY.choose(r).unwrap());
+            }
+            5 => {
+                // truncate
+                let idx: Vec<usize> = t.char_indices().map(|(k, _)| k).collect();
+                let k = *idx.choose(r).unwrap();
+                t.truncate(k);
+            }
+            _ => {
+                // token-level: delete / duplicate / swap / replace by a token of the corpus
+                if let Some(toks) = tokenize(&t) {
+                    if toks.is_empty() {
+                        continue;
+                    }
+                    let k = r.gen_range(0..toks.len());
+                    let (a, b) = (toks[k].start, toks[k].end);
+                    match r.gen_range(0..4) {
+                        0 => t.replace_range(a..b, ""),
+                        1 => {
+                            let piece = format!(" {}", &t[a..b]);
+                            t.insert_str(b, &piece);
+                        }
+                        2 if k + 1 < toks.len() => {
+                            let (c, d) = (toks[k + 1].start, toks[k + 1].end);
+                            let (x, y) = (t[a..b].to_string(), t[c..d].to_string());
+                            t.replace_range(c..d, &x);
+                            t.replace_range(a..b, &y);
+                        }
+                        _ => t.replace_range(a..b, pool.choose(r).map(|x| x.as_str()).unwrap_or("X")),
+                    }
+                }
+            }
+        }
+    }
+    t
+}
+
+pub fn drive(ctx: &Ctx) -> Summary {
+    let n = ctx.arg_u64("n", 300);
+    let max_tokens = ctx.arg_u64("max-tokens", 400) as usize;
+    let path = ctx.arg_str("out").expect("--out");
+    let mut out = std::io::BufWriter::new(std::fs::File::create(path).expect("create trace"));
+    let texts_path = ctx.arg_str("texts").map(|x| x.to_string()).unwrap_or_else(|| format!("{path}.texts.ndjson"));
+    let mut texts = std::io::BufWriter::new(std::fs::File::create(&texts_path).expect("create texts"));
+    let mut rng = util::rng(ctx.seed, 1);
+    let corpus = load_corpus();
+    assert!(corpus.len() > 20, "the repository's Quil fixtures were not found under /repo/quil-rs");
+    // pool of token spellings for token-level replacement
+    let mut pool: Vec<String> = vec![];
+    for (kind, t) in corpus.iter().filter(|(k, _)| k != "whole").take(80) {
+        let _ = kind;
+        if let Some(toks) = tokenize(t) {
+            for tk in toks.iter().filter(|x| !matches!(x.c, "nl" | "indent" | "comment")).take(60) {
+                pool.push(t[tk.start..tk.end].to_string());
+            }
+        }
+    }
+    pool.sort();
+    pool.dedup();
+    let mut sum = Summary::default();
+    let small: Vec<&(String, String)> = corpus.iter().filter(|(k, _)| k != "whole").collect();
+    let mut inputs: Vec<(String, bool)> = vec![(String::new(), false)];
+    // every fixture unmodified first (the whole bench file too), then mutations
+    for (_, t) in &corpus {
+        inputs.push((t.clone(), false));
+    }
+    for _ in 0..n {
+        let (_, base) = small.choose(&mut rng).unwrap();
+        inputs.push((mutate(&mut rng, base, &pool), true));
+    }
+    for (text, mutated) in inputs {
+        let res = run_all(&text);
+        let mut o = Outcome::ok(true);
+        o.sub_evaluations = res.len() as u64;
+        record_panics(&mut o, &text, &res);
+        if !mutated && text.len() < 100_000 && !text.is_empty() && res[0].1 != "ok" && res[2].1 != "ok" {
+            o.diverge(format!("fixture parses neither as a program nor as an expression: {:?}", text.chars().take(60).collect::<String>()));
+        }
+        if nesting_depth(&text) <= NEST_THRESHOLD {
+            util::emit(&mut texts, &json!({"text": text}));
+        }
+        let res_json: Value = Value::Object(res.iter().map(|(e, r)| (e.to_string(), json!(if r.starts_with("panic") { "panic" } else { r.as_str() }))).collect());
+        match tokenize(&text) {
+            Some(toks) if toks.len() <= max_tokens => {
+                o.count("token_streams_for_tlc");
+                util::emit(&mut out, &json!({"ev": "reset"}));
+                util::emit(&mut out, &json!({"ev": "input", "toks": toks_json(&toks), "res": res_json, "text": text}));
+                util::emit(&mut out, &json!({"ev": "verdict", "res": res_json}));
+            }
+            Some(_) => o.count("token_streams_too_long_for_tlc"),
+            None => {
+                o.count("lex_errors");
+                // the harness' tokenizer says the text does not lex: then every entry point must have failed
+                if res.iter().any(|(_, r)| r == "ok") {
+                    o.diverge(format!("tokenizer refuses a text the lexer accepts: {:?}", text.chars().take(80).collect::<String>()));
+                }
+            }
+        }
+        sum.absorb(&json!({"text": text.chars().take(200).collect::<String>()}), &o, true);
+    }
+    sum
 }
